@@ -41,8 +41,9 @@ def configs(tier, seed):
                 add(n=2, kernel=k, wiring=w, outlier_prior=op, het=het, N=3, threshold=0.5, alpha=1.0)
     # data alphabet at n = 2
     for k in KERNELS:
-        for kind, dims in (("flat", 1), ("peaked", 1), ("seeded", 1), ("generic", 2)):
+        for kind, dims in (("flat", 1), ("peaked", 1), ("seeded", 1), ("generic", 2), ("dup", 1)):
             add(n=2, kernel=k, wiring="library", outlier_prior=0.2, N=2, threshold=0.5, alpha=1.3, data=kind, dims=dims, seed=seed)
+        add(n=3, kernel=k, wiring="run", outlier_prior=0.0, N=2, threshold=0.5, alpha=1.3, data="dup")
     # n = 3, N = 2 : every kernel x wiring x outlier setting
     for k in KERNELS:
         for w in WIRINGS:
